@@ -75,6 +75,8 @@ def cex_to_text(cex):
         lines.append("file " + " ".join(str(x) for x in fl))
     for op in cex.get("db", []):
         lines.append("db " + " ".join(str(x) for x in op))
+    for b in cex.get("bloom", []):
+        lines.append("bloom " + " ".join(str(x) for x in b))
     for b in cex.get("bytes", []):
         lines.append("bytes " + b)
     for e in cex.get("encode", []):
@@ -260,8 +262,29 @@ def family_batch_codec(seed):
     return [{"oracle": "batch_codec", "bytes": [r.hex() if r else "-" for r in raws], "encode": encs}]
 
 
+def family_bloom(seed):
+    """Key sets of several sizes and shapes at several bits-per-key settings: every key must match."""
+    x = (seed * 2654435761 + 99991) & 0xffffffff
+    def rnd(n):
+        nonlocal x
+        x = (x * 1103515245 + 12345) & 0x7fffffff
+        return (x >> 7) % n
+    sets = [
+        [b""], [b"a"], [b"", b"\x00", b"\xff", b"\xff\xff"], [bytes([i]) for i in range(40)],
+        [bytes([rnd(256) for _ in range(rnd(9))]) for _ in range(300)],
+        [b"k%05d" % i for i in range(120)],
+        [bytes([0xff]) * n for n in range(1, 30)],
+    ]
+    rows = []
+    for bits in (0, 1, 2, 5, 10, 20, 44, 100):
+        for ks in sets:
+            rows.append([bits] + [k.hex() if k else "-" for k in ks])
+    return [{"oracle": "bloom", "bloom": rows}]
+
+
 FAMILIES = [
     ("U35::", family_batch_codec),
+    ("U06::", family_bloom),
     ("U19::write_snapshot_record_file", family_db_snapshot),
     ("U10::implTable::get", family_table_get),
     ("U05::", family_log_reader),
@@ -313,6 +336,7 @@ BOUNDS = {
     "family_log_reader": "write-ahead-log byte streams built from the hand-written and seeded append / reopen / truncate / flip scripts of tools/replay.py (records up to 3 blocks)",
     "family_table_get": "one table of 16 entries (4 user keys x 4 versions) at block sizes 1, 64, 150, 4096 with 49 lookups, plus a one-entry table",
     "family_key_range": "three hand-written file lists",
+    "family_bloom": "7 key sets (sizes 1 to 300, empty / 0x00 / 0xff keys, one pseudo-random set per seed) at 8 bits-per-key settings from 0 to 100",
     "family_batch_codec": "5 batches of at most 4 elements (keys and values up to 300 bytes): each well formed, with the count off by one either way, cut at and one byte around every element boundary; 4 malformed buffers; 3 encodings",
 }
 
